@@ -908,7 +908,8 @@ namespace nmtools::index
             // note that we also explicit using size_t here
             // can't infer type (or using size_type ) :|
             // size_type si = at(shape,i);
-            [[maybe_unused]] size_t si = at(shape,s_i);
+            // NOTE: read lazily, an ellipsis in the last position may take no axis (s_i == len(shape))
+            [[maybe_unused]] auto get_si = [&]() -> size_t { return at(shape,s_i); };
             using slice_t = meta::remove_cvref_t<decltype(slice)>;
 
             // helper lambda to decompose start stop and step
@@ -976,7 +977,7 @@ namespace nmtools::index
                 // (5) a[2::-2]
                 // (6) a[1::-2]
 
-                auto s = compute_range(si,start_,stop_,step_);
+                auto s = compute_range(get_si(),start_,stop_,step_);
 
                 auto step = []([[maybe_unused]] auto step_){
                     using m_step_t = meta::remove_cvref_t<decltype(step_)>;
@@ -1067,12 +1068,12 @@ namespace nmtools::index
         auto abs_ = [](auto v) { return v < 0 ? -v : v; };
         meta::template_for<N_SLICES>([&](auto i){
             auto slice = at(slices_pack, i);
-            // si may not be used in all constexpr branch
-            [[maybe_unused]] size_t si  = at(shape,s_i);
+            // NOTE: read lazily, an ellipsis in the last position may take no axis (s_i == len(shape))
+            [[maybe_unused]] auto get_si = [&]() -> size_t { return at(shape,s_i); };
             using slice_t = meta::remove_cvref_t<decltype(slice)>;
             if constexpr (meta::is_index_v<slice_t>) {
                 if constexpr (meta::is_signed_v<slice_t>) {
-                    at(res,r_i) = (slice < 0 ? si - abs_(slice) : slice);
+                    at(res,r_i) = (slice < 0 ? get_si() - abs_(slice) : slice);
                 } else {
                     at(res,r_i) = slice;
                 }
@@ -1124,7 +1125,7 @@ namespace nmtools::index
                 // TODO: exploit the type information, such as signed-/unsigned-ness
                 // to perform conditional compilation
 
-                at(res,r_i) = compute_index(indices,si,start_,stop_,step_,i_i);
+                at(res,r_i) = compute_index(indices,get_si(),start_,stop_,step_,i_i);
                 i_i++;
 
                 // TODO: check at(indices,i) < stop
